@@ -349,6 +349,12 @@ type SolverStats struct {
 }
 
 var slowLog = os.Getenv("GOSYM_SLOWLOG") != ""
+var slowThreshold = func() time.Duration {
+	if d, err := time.ParseDuration(os.Getenv("GOSYM_SLOWLOG")); err == nil {
+		return d
+	}
+	return 5 * time.Second
+}()
 
 type Portfolio struct {
 	ctx       *Ctx
@@ -443,7 +449,7 @@ func (p *Portfolio) Check(asserts []*Term, wantVars []*Term, assertion bool) (Re
 	if why != "" {
 		p.lastErr = why
 	}
-	if slowLog && time.Since(t0) > 5*time.Second {
+	if slowLog && time.Since(t0) > slowThreshold {
 		fmt.Fprintf(os.Stderr, "SLOW query %.1fs res=%v heavy=%v nasserts=%d last=%s\n", time.Since(t0).Seconds(), res, heavy, len(asserts), asserts[len(asserts)-1].String())
 		for _, a := range asserts {
 			fmt.Fprintf(os.Stderr, "    %s\n", a.String())
